@@ -1430,6 +1430,9 @@ class Executor:
                 self.emit(f"divisor-positive:{self.c.qualname}:L{node.lineno - self.fn.lineno}", "arith", st, y > 0, node)
             return x % y
         if isinstance(op, ast.Pow):
+            if isinstance(a, int) and a == -1 and not isinstance(b, (float,)):
+                n = to_z3(b, IntK)
+                return z3.If(n % 2 == 0, z3.IntVal(1), z3.IntVal(-1))     # (-1) ** n for an integer n >= 0
             if isinstance(b, int) and 0 <= b <= 6:
                 r = to_z3(1, k)
                 for _ in range(b):
@@ -1980,13 +1983,25 @@ class Executor:
         m = fresh("m", z3.IntSort())
         c = Executor.CNT
         if not z3.is_const(arr):
-            nm = fresh("flags", z3.ArraySort(z3.IntSort(), z3.BoolSort()))
+            # the same flag array (structurally identical term) always gets the same name, so that counts taken in different
+            # states of one run are comparable without an extensionality argument
+            key = arr.sexpr()
+            cache = self.__dict__.setdefault("_flag_cache", {})
+            if key not in cache:
+                cache[key] = fresh("flags", z3.ArraySort(z3.IntSort(), z3.BoolSort()))
+            nm = cache[key]
             st.pc.append(z3.ForAll([m], z3.Select(nm, m) == z3.Select(arr, m)))
             arr = nm
         st.pc.append(c(arr, 0) == 0)
-        st.pc.append(z3.ForAll([m], z3.Implies(m >= 1, c(arr, m) == c(arr, m - 1) + z3.If(z3.Select(arr, m - 1), 1, 0)),
-                               patterns=[c(arr, m)]))
-        st.pc.append(z3.ForAll([m], z3.Implies(m >= 0, z3.And(c(arr, m) >= 0, c(arr, m) <= m)), patterns=[c(arr, m)]))
+        if self.bound is None:
+            st.pc.append(z3.ForAll([m], z3.Implies(m >= 1, c(arr, m) == c(arr, m - 1) + z3.If(z3.Select(arr, m - 1), 1, 0)),
+                                   patterns=[c(arr, m)]))
+            st.pc.append(z3.ForAll([m], z3.Implies(m >= 0, z3.And(c(arr, m) >= 0, c(arr, m) <= m)), patterns=[c(arr, m)]))
+        else:
+            # finite mode: the recursive definition is unfolded for all lengths up to the bound (exact under the length restriction)
+            self.restrictions.append(to_z3(n, IntK) <= self.bound)
+            for mm in range(1, self.bound + 1):
+                st.pc.append(c(arr, mm) == c(arr, mm - 1) + z3.If(z3.Select(arr, mm - 1), 1, 0))
         return c(arr, to_z3(n, IntK))
 
     def x_np_sum(self, e, st):
@@ -2089,12 +2104,42 @@ class Executor:
         self.fs_get(st, p)
         return self.entry_fs[p.key]
 
+    def b_count_if(self, e, st):
+        """spec function count_if(lambda x: cond, seq, k): #{i < k : cond(seq[i])}"""
+        lam = self.eval(e.args[0], st)
+        seq = st.deref(self.eval(e.args[1], st))
+        k = self.eval(e.args[2], st) if len(e.args) > 2 else seq.len
+        i = z3.Int("i!cif")
+        body = to_bool(self.apply_lambda(lam, [seq.at(i)], st))
+        return self.count_true(z3.Lambda([i], body), k, st)
+
+    def b_rsum(self, e, st):
+        """spec function rsum(lambda i: term, k) = sum_{i<k} term(i), as an uninterpreted function with its recursive definition"""
+        lam = self.eval(e.args[0], st)
+        k = to_z3(self.eval(e.args[1], st), IntK)
+        i = z3.Int("i!rsum")
+        term = to_z3(self.apply_lambda(lam, [i], st), IntK)
+        key = term.sexpr()
+        cache = self.__dict__.setdefault("_rsum_cache", {})
+        if key not in cache:
+            cache[key] = z3.Function(f"rsum!{len(cache)}", z3.IntSort(), z3.IntSort())
+        f_ = cache[key]
+        m = fresh("m", z3.IntSort())
+        st.pc.append(f_(0) == 0)
+        if self.bound is None:
+            st.pc.append(z3.ForAll([m], z3.Implies(m >= 1, f_(m) == f_(m - 1) + z3.substitute(term, (i, m - 1))), patterns=[f_(m)]))
+        else:
+            self.restrictions.append(k <= self.bound)
+            for mm in range(1, self.bound + 1):
+                st.pc.append(f_(mm) == f_(mm - 1) + z3.substitute(term, (i, z3.IntVal(mm - 1))))
+        return f_(k)
+
     def b_count_gt_div(self, e, st):
         """spec function: #{i : seq[i]/d > t}"""
         seq = st.deref(self.eval(e.args[0], st))
         d = to_z3(self.eval(e.args[1], st), RealK)
         t = to_z3(self.eval(e.args[2], st), RealK)
-        i = z3.Int(f"i!cg{next(_fresh_counter)}")
+        i = z3.Int("i!cg")
         return self.count_true(z3.Lambda([i], z3.Select(seq.arr, i) / d > t), seq.len, st)
 
     # ---- methods
@@ -2142,6 +2187,15 @@ class Executor:
                 s = SeqV(s.len, z3.K(z3.IntSort(), self.default_of(elem)), elem)
         st.heap[recv.addr] = SeqV(to_z3(s.len) + 1, z3.Store(s.arr, to_z3(s.len), elem.unwrap(self.coerce(x, elem, st))), elem)
         return None
+
+    def m_count(self, e, recv, st):
+        seq = st.deref(recv)
+        if not isinstance(seq, SeqV):
+            raise VCError(".count on non-list")
+        x = self.eval(e.args[0], st)
+        xe = seq.elem.unwrap(self.coerce(x, seq.elem, st))
+        i = z3.Int("i!cnt")
+        return self.count_true(z3.Lambda([i], z3.Select(seq.arr, i) == xe), seq.len, st)
 
     def m_copy(self, e, recv, st):
         d = st.deref(recv)
